@@ -4,7 +4,7 @@ driver (lean/Driver.lean)."""
 import functools
 
 import impl
-from impl import Runner, ScriptAction, ticks, TICK, CTX  # noqa: F401
+from impl import Runner, ScriptAction, ticks, TICK, CTX, Num  # noqa: F401
 
 from simprocesd.model import System, EventType  # noqa: F401
 from simprocesd.model.factory_floor import (Source, Sink, PartHandler, PartProcessor, Buffer, DecisionGate,
@@ -33,13 +33,6 @@ def ival(v):
     if float(v) == int(v):
         return str(int(v))
     return 'f' + repr(float(v))
-
-
-class Num(int):
-    """an integer parameter as a user would get it from a configuration reader or a numeric library: EQUAL to the
-    plain int, hashable like it, but never the same object as the interpreter's cached small ints (arithmetic on it
-    yields plain ints again).  A correct library compares numbers by value, never by identity or exact type."""
-    __slots__ = ()
 
 
 def jn(sep, items):
@@ -285,7 +278,6 @@ class FullRunner(Runner):
         self.all_resv = []
         self.n_assets = 0
         self.names = {}
-        self._numc = 0
         env = self.env
         runner = self
         orig_add = env.add_datapoint
@@ -311,13 +303,6 @@ class FullRunner(Runner):
         if asset_id not in self.id2idx and asset_id > 0:
             self._sync_assets()      # an asset registered a moment ago (events created by its initialize)
         return self.id2idx.get(asset_id, asset_id)
-
-    def N(self, v):
-        """integer PARAMETER handed to the library: two out of three are `Num` instances (see there); nothing of this
-        shows in the observation stream of a correct library"""
-        v = int(v)
-        self._numc += 1
-        return v if self._numc % 3 == 0 else Num(v)
 
     def add_dev(self, obj):
         self.dev_idx[id(obj)] = len(self.devs)
@@ -361,8 +346,8 @@ class FullRunner(Runner):
         if a > 0:
             for real, idx in self.id2idx.items():
                 if idx == a:
-                    return real
-        return a
+                    return self.N(real)
+        return self.N(a)
 
     # ---- scenario lines ---------------------------------------------------------------------
     def handle_ext(self, toks):
